@@ -180,6 +180,8 @@ func detContext() map[string]stick.Value {
 	c["mnan"] = map[float64]string{math.NaN(): "a"}
 	c["mif"] = map[interface{}]stick.Value{math.NaN(): 4}
 	c["mbool"] = map[bool]int{true: 1}
+	c["mpk2"] = map[*gen.OuterIface]int{{Any: cyclicMap()}: 1}
+	c["mik"] = map[interface{}]int{cyclicStruct(): 1}
 	return c
 }
 
